@@ -191,6 +191,62 @@ def o_amo(ex, V):
             V("C04.amo_attempt_entered_twice", {"pos": list(p), "attempt": a, "invocations": ks})
 
 
+def _amo_positions(script):
+    amo = set()
+
+    def walk(stmts, ctx):
+        n = 0
+        for st in stmts:
+            if st["op"] in ("step", "wait", "cbnew", "invoke", "wfc", "child"):
+                n += 1
+                if st["op"] == "step" and st.get("amo"):
+                    amo.add(tuple(ctx + [n]))
+                if st["op"] == "child":
+                    walk(st["body"], ctx + [n])
+    walk(script, [])
+    return amo
+
+
+@oracle("C04")
+def o_amo_start_recorded(ex, V):
+    """The start of an attempt is durably recorded before the function is entered: at the instant an at-most-once
+    step function is entered the backend holds the step as STARTED with the attempt count of this attempt."""
+    amo = _amo_positions(ex["script"])
+    for k, inv in enumerate(ex["invs"]):
+        for ev in inv["raw_trace"]:
+            if ev[0] == "enter" and ev[2] == "step" and tuple(ev[1]) in amo and len(ev) > 5:
+                rec = ev[5]
+                if rec is None or rec[0] != "STARTED" or (rec[1] or 0) != ev[3] - 1:
+                    V("C04.amo_entered_without_recorded_start", {"inv": k, "pos": ev[1], "attempt": ev[3], "backend_record": rec})
+
+
+@oracle("C06")
+def o_fail_stop(ex, V):
+    """After a failed checkpoint call: no further API call, nothing delivered that the backend does not hold, the
+    invocation ends and never with SUCCEEDED or PENDING."""
+    amo = _amo_positions(ex["script"])
+    for k, inv in enumerate(ex["invs"]):
+        bad = [i for i, (t, us, o) in enumerate(inv["calls"]) if o == "fault"]
+        if not bad:
+            continue
+        for ev in inv["raw_trace"]:
+            if ev[0] == "enter" and ev[2] == "step" and tuple(ev[1]) in amo and len(ev) > 5:
+                rec = ev[5]
+                if rec is None or rec[0] != "STARTED" or (rec[1] or 0) != ev[3] - 1:
+                    V("C06.amo_entered_without_recorded_start", {"inv": k, "pos": ev[1], "attempt": ev[3], "backend_record": rec})
+        if bad[0] != len(inv["calls"]) - 1:
+            V("C06.api_call_after_failed_call", {"inv": k, "calls": [(us, o) for t, us, o in inv["calls"]]})
+        if inv["end"]["end"] in ("returned", "suspended"):
+            V("C06.success_or_pending_after_checkpoint_failure", {"inv": k, "end": inv["end"]})
+        if inv["end"]["end"] == "hung" or inv.get("limit"):
+            V("C06.invocation_hangs_after_checkpoint_failure", {"inv": k, "end": inv["end"]})
+        for ev in inv["raw_trace"]:
+            if ev[0] == "deliver" and ev[2] != {"ok": "cb"} and not str(ev[2].get("ok", "")).startswith("cb?"):
+                st = ev[3] if len(ev) > 3 else None
+                if st not in TERMINAL:
+                    V("C06.delivered_without_terminal_record", {"inv": k, "pos": ev[1], "outcome": ev[2], "backend_status": st})
+
+
 @oracle("C07")
 def o_suspension(ex, V):
     for k, inv in enumerate(ex["invs"]):
@@ -453,7 +509,7 @@ def o_large_replay_equal(ex, V):
                 first.setdefault(p, (k, ev[2]))
 
 
-ALL_ORACLES = [o_large, o_large_replay_equal, o_completed_yields, o_no_reentry, o_replay_transparent, o_write_ahead, o_amo, o_suspension, o_valid_history, o_step_retries,
+ALL_ORACLES = [o_large, o_large_replay_equal, o_completed_yields, o_no_reentry, o_replay_transparent, o_write_ahead, o_amo, o_amo_start_recorded, o_fail_stop, o_suspension, o_valid_history, o_step_retries,
                o_wfc_state, o_callbacks, o_logger, o_ids]
 
 
@@ -515,6 +571,25 @@ def run(ctx, prop, n_quick=500, n_thorough=10000, crash_p=0.25, fault_p=0.1, cor
     for i in range(ctx.scale(n_quick, n_thorough)):
         script = E.gen_script(ctx.rng, focus=prop if i % 2 else None)
         one(ctx, script, ctx.rng.randrange(1 << 30), prop, crash_p=crash_p, fault_p=fault_p)
+
+
+def run_fault(ctx, prop="C06"):
+    """Invocation-level fail-stop on sequential workflows: two thirds with the modelled fault (k-th synchronous call
+    fails; compared with the engine model), one third with a fault on an arbitrary API call (judged by the oracles)."""
+    for i in range(ctx.scale(150, 3000)):
+        script = E.gen_script(ctx.rng, focus="C04" if i % 2 else None)
+        if i % 3 == 2:
+            saved, ctx.driver = ctx.driver, None
+            E.ANY_CALL_FAULTS = 0.6
+            try:
+                ex = one(ctx, script, ctx.rng.randrange(1 << 30), prop, component="engine.fault.any_call", crash_p=0.0, fault_p=0.0)
+            finally:
+                E.ANY_CALL_FAULTS = 0.0
+                ctx.driver = saved
+        else:
+            ex = one(ctx, script, ctx.rng.randrange(1 << 30), prop, component="engine.fault", crash_p=0.0, fault_p=0.5)
+        if any(o == "fault" for inv in ex["invs"] for t, us, o in inv["calls"]):
+            ctx.count("engine.fault_fired")
 
 
 def search(ctx, prop, n=600):
